@@ -871,3 +871,51 @@ def _(I, a, b): return I.cmp_generic(a, b) <= 0
 def _(I, a, b): return I.cmp_generic(a, b) > 0
 @summary("<_ as PartialOrd>::ge")
 def _(I, a, b): return I.cmp_generic(a, b) >= 0
+
+
+# ------------------------------------------------------------------ memchr (by documented contract; native replay uses the real crate)
+def _byte_eq(x, b):
+    if is_sym(x) or is_sym(b): return x == b
+    return x == b
+
+
+@summary("memchr::memmem::find", "memmem::find")
+def _(I, hay, needle):
+    nd = needle.items(); h = hay.items()
+    if not nd: return some(0)
+    for i in range(0, len(h) - len(nd) + 1):
+        c = True
+        for k, b in enumerate(nd): c = _and(c, _byte_eq(h[i + k], b))
+        if I.W.branch(c): return some(i)
+    return none()
+
+
+def _memchr_iter(n):
+    def f(I, *a):
+        return Agg([a[n], list(a[:n]), 0], "MemchrIter")
+    return f
+
+
+S["memchr2_iter"] = S["memchr::memchr2_iter"] = _memchr_iter(2)
+S["memchr3_iter"] = S["memchr::memchr3_iter"] = _memchr_iter(3)
+S["memchr_iter"] = S["memchr::memchr_iter"] = _memchr_iter(1)
+
+
+def _memchr_next(I, itp):
+    it = I.deref(itp)
+    hay, needles, pos = it.f
+    h = hay.items()
+    while pos < len(h):
+        c = False
+        for b in needles: c = _or(c, _byte_eq(h[pos], b))
+        pos += 1
+        if I.W.branch(c):
+            it.f[2] = pos
+            return some(pos - 1)
+    it.f[2] = pos
+    return none()
+
+
+for _t in ("Memchr", "Memchr2", "Memchr3", "memchr::Memchr2", "memchr::Memchr3"):
+    S[f"<{_t} as Iterator>::next"] = _memchr_next
+    S[f"<{_t} as IntoIterator>::into_iter"] = lambda I, it: it
